@@ -290,6 +290,27 @@ func (x *Exec) verifyFunction(fn *ssa.Function, fc *FuncContract, prop string, r
 	fr := x.newFrame(fn, nil)
 	fr.top = true
 	fr.props = fc.Props
+	if fr.li != nil {
+		for _, l := range fr.li.Loops {
+			if *flagVerbose {
+				fmt.Printf("  loop in %s: ordinal=%d header=block %d at %s (%d blocks)\n", shortKey(fc.Key), l.Ordinal, l.Header.Index, x.P.posStr(l.MinPos), len(l.Blocks))
+			}
+			if l.Ordinal == 0 {
+				cfail("loop at %s in %s could not be matched to a source loop statement", x.P.posStr(l.MinPos), fc.Key)
+			}
+		}
+		for n := range fc.LoopInv {
+			found := false
+			for _, l := range fr.li.Loops {
+				if l.Ordinal == n {
+					found = true
+				}
+			}
+			if !found {
+				cfail("%s: contract of %s names loop %d, which does not exist in the current body", x.P.posStr(fc.Pos), shortKey(fc.Key), n)
+			}
+		}
+	}
 	x.funcsUnderContract[fc.Key] = true
 	st := &State{regs: map[any]*Term{}, mem: map[string]*Term{}, ghost: map[string]*Term{}}
 	st.ep = nil
